@@ -423,7 +423,8 @@ func (p *parser) parseLabelFormatExpr() (lf *LabelFormatExpr, err error) {
 			if err != nil {
 				return nil, err
 			}
-			lf.Labels = append(lf.Labels, RenameLabel{Label: label, To: value})
+			// `dst=src`: rename label `src` to `dst`.
+			lf.Labels = append(lf.Labels, RenameLabel{Label: value, To: label})
 		case lexer.String:
 			value, err := p.parseString()
 			if err != nil {
